@@ -275,10 +275,11 @@ func (its *document) PutToObject(key string, value interface{}) (Document, error
 	if err := its.assertLocalOp("PutToObject", TypeJSONObject, false); err != nil {
 		return nil, err
 	}
-	if err := assertNoNullValue([]interface{}{value}); err != nil {
-		return nil, errors.DatatypeIllegalParameters.New(its.L(), err.Error())
+	values, vErr := toJSONValues([]interface{}{value})
+	if vErr != nil {
+		return nil, errors.DatatypeIllegalParameters.New(its.L(), vErr.Error())
 	}
-	op := operations.NewDocPutInObjOperation(its.snapshot().getCreateTime(), key, value)
+	op := operations.NewDocPutInObjOperation(its.snapshot().getCreateTime(), key, values[0])
 	removed, err := its.SentenceInTx(its.TxCtx, op, true)
 	if err != nil {
 		return nil, err
@@ -346,8 +347,9 @@ func (its *document) InsertToArray(pos int, values ...interface{}) (Document, er
 	if err := arr.validateInsertPosition(pos); err != nil {
 		return its, err
 	}
-	if err := assertNoNullValue(values); err != nil {
-		return its, errors.DatatypeIllegalParameters.New(its.L(), err.Error())
+	values, vErr := toJSONValues(values)
+	if vErr != nil {
+		return its, errors.DatatypeIllegalParameters.New(its.L(), vErr.Error())
 	}
 	op := operations.NewDocInsertToArrayOperation(its.snapshot().getCreateTime(), pos, values)
 	if _, err := its.SentenceInTx(its.TxCtx, op, true); err != nil {
@@ -394,8 +396,9 @@ func (its *document) UpdateManyInArray(pos int, values ...interface{}) ([]Docume
 	if err := arr.validateGetRange(pos, len(values)); err != nil {
 		return nil, err
 	}
-	if err := assertNoNullValue(values); err != nil {
-		return nil, errors.DatatypeIllegalParameters.New(its.L(), err.Error())
+	values, vErr := toJSONValues(values)
+	if vErr != nil {
+		return nil, errors.DatatypeIllegalParameters.New(its.L(), vErr.Error())
 	}
 	op := operations.NewDocUpdateInArrayOperation(its.snapshot().getCreateTime(), pos, values)
 	oldOnes, err := its.SentenceInTx(its.TxCtx, op, true)
@@ -453,13 +456,30 @@ func (its *document) toDocument(child jsonType) Document {
 	}
 }
 
-func assertNoNullValue(values []interface{}) error {
+// toJSONValues returns the values as the other replicas will decode them from the operation, i.e., encoded to JSON
+// and decoded again: the issuing replica must build the same nodes, in the same order, as the replicas that receive
+// the operation ([]byte is a string in JSON, a time.Time too, a struct follows its json tags, ...).
+// A value that JSON cannot express, or expresses as null at any depth, is refused.
+func toJSONValues(values []interface{}) ([]interface{}, error) {
+	jsonValues := make([]interface{}, 0, len(values))
 	for _, v := range values {
 		if hasNullValue(reflect.ValueOf(v)) {
-			return fmt.Errorf("null value is not allowed")
+			return nil, fmt.Errorf("null value is not allowed")
 		}
+		encoded, err := json.Marshal(v)
+		if err != nil {
+			return nil, err
+		}
+		var decoded interface{}
+		if err := json.Unmarshal(encoded, &decoded); err != nil {
+			return nil, err
+		}
+		if hasNullValue(reflect.ValueOf(decoded)) {
+			return nil, fmt.Errorf("null value is not allowed")
+		}
+		jsonValues = append(jsonValues, decoded)
 	}
-	return nil
+	return jsonValues, nil
 }
 
 // hasNullValue visits a value as createJSONTypeFromReflectValue() does, and reports whether it contains
